@@ -242,3 +242,12 @@ def gen_queries(rng, o, n=3):
     for _ in range(n):
         qs.append({"level": rng.choice([-1, 0, 1, 2, 3, 5, 9]), "bits": rng.choice([None, None, 1024, 32, 2 ** 32]), "mask": []})
     return qs
+
+
+def in_domain(mol, o):
+    """The properties quantify over molecules that retain at least one heavy atom (and whose bond types the
+    BOND_TYPES table knows)."""
+    heavy = [a for a in mol.GetAtoms() if a.GetAtomicNum() > 1]
+    if o.get("exclude_floating", True) and len(heavy) > 1:
+        heavy = [a for a in heavy if a.GetDegree() > 0]
+    return len(heavy) > 0 and all(bond_code(b) != 0 for b in mol.GetBonds())
